@@ -138,7 +138,12 @@ type pkOutcome struct {
 }
 
 // runParkOnce executes the case once.
+// parkConfirmed counts violations already established in this run; after three, further
+// candidates are only counted (no re-execution, short waits): the verdict no longer depends on them.
+var parkConfirmed int64
+
 func runParkOnce(cfg pkCfg) pkOutcome {
+	fast := atomic.LoadInt64(&parkConfirmed) >= 3
 	a, b := newMemPipe(cfg.PipeBuf, cfg.Frag, cfg.CaseSeed)
 	var descs []*tmconn.ChannelDescriptor
 	for _, ch := range cfg.Chans {
@@ -264,7 +269,11 @@ func runParkOnce(cfg pkCfg) pkOutcome {
 	// warm-up: delivered before the burst, leaves the channels with unequal recentlySent
 	if len(cfg.Warm) > 0 {
 		perChannel(cfg.Warm, true, nil).Wait()
-		if !waitDelivered(20 * time.Second) {
+		warmWait := 20 * time.Second
+		if fast {
+			warmWait = time.Second
+		}
+		if !waitDelivered(warmWait) {
 			if hasErr() {
 				return pkOutcome{class: "connection-error", detail: map[string]interface{}{"phase": "warm-up", "errors": errs}}
 			}
@@ -302,6 +311,10 @@ func runParkOnce(cfg pkCfg) pkOutcome {
 	// ... and send nothing more.
 	t0 := time.Now()
 	window := 3*time.Second + 50*time.Duration(cfg.FlushMs)*time.Millisecond
+	kickWait := 5 * time.Second
+	if fast {
+		window, kickWait = time.Second, time.Second
+	}
 	out := pkOutcome{}
 	ok := waitDelivered(window)
 	out.waitedFor = time.Since(t0)
@@ -332,11 +345,11 @@ func runParkOnce(cfg pkCfg) pkOutcome {
 		// the unrelated send
 		kick := pkMsg{Ch: cfg.KickCh, Len: n1Hdr + 8}
 		send(kick, true)
-		if waitDelivered(5 * time.Second) {
+		if waitDelivered(kickWait) {
 			out.class = "parked-until-unrelated-send"
 			det["delivered_after_kick_ms"] = time.Since(t0).Milliseconds() - window.Milliseconds()
 		} else {
-			waitDelivered(10 * time.Second)
+			waitDelivered(2 * kickWait)
 			det["undelivered_after_kick"] = pending()
 			if allDelivered() {
 				out.class = "parked-until-unrelated-send"
@@ -404,6 +417,10 @@ func runParkCase(r *rec, cfg pkCfg) {
 			r.Count("n1park.connection_error."+kind, 1)
 		}
 	default:
+		if atomic.LoadInt64(&parkConfirmed) >= 3 {
+			r.Count("n1park.further_candidates_not_judged."+out.class, 1)
+			return
+		}
 		// candidate: execute the same case again; only a repeated observation counts
 		runs := []string{out.class}
 		same := 1
@@ -417,6 +434,7 @@ func runParkCase(r *rec, cfg pkCfg) {
 			}
 		}
 		if same >= 2 {
+			atomic.AddInt64(&parkConfirmed, 1)
 			if out.class == "parked-until-unrelated-send" {
 				r.Violation("mconn-accepted-message-parked-until-unrelated-send",
 					"messages for which Send/TrySend returned true were not delivered after the reader was released and sending stopped (connection up, default ping interval), and arrived only behind an unrelated message sent on another channel", wit(last, runs))
